@@ -851,6 +851,23 @@ func checkRefract(r *ev.Run, m int, ior float64, spec bool, n, d c3) {
 			}
 		}
 	}
+	// total internal reflection: refraction is impossible, the "refracted" lobe is sent to the mirror direction too and
+	// the one direction carries both shares, R x mirror colour + (1-R) x refract colour
+	if spec && len(seen) == 1 {
+		mirror := n.Scale(2 * n.Dot(d)).Sub(d).Scale(-1)
+		cos := math.Abs(n.Dot(d))
+		r0 := (ior - 1) / (ior + 1)
+		r0 *= r0
+		R := r0 + (1-r0)*math.Pow(1-cos, 5)
+		if out := seen[0]; out.Dist(mirror) < 1e-6 && cos > 1e-6 {
+			e := mat.BSDF(n, d, out).X * math.Abs(n.Dot(out)) * eps / 2
+			if want := R + 0.9*(1-R); !(math.Abs(e-want) <= 1e-6) {
+				r.Violation("Refract/fresnel-energy-split", fmt.Sprintf("ior=%g, cos(incidence)=%.4f, total internal reflection: the mirror direction carries %.6f of the incoming energy, both shares together are %.6f (R = %.6f, refract colour 0.9, mirror colour 1)", ior, cos, e, want, R), c)
+				return
+			}
+			r.NontrivialKey(fmt.Sprintf("tir/%g", ior))
+		}
+	}
 	r.NontrivialAdd(1)
 }
 
